@@ -13,6 +13,8 @@ type printer struct {
 	last   []byte
 }
 
+func NewPrinter(w io.Writer) *printer { return &printer{output: w} }
+
 func (p *printer) write(b []byte) {
 	if len(b) == 0 {
 		return
